@@ -306,7 +306,17 @@ fn run_single_program(
             Ok(fds) => fds_stdin = Some(fds),
             Err(e) => {
                 println_stderr!("cicada: pipeline4: {}", e);
-                return 1;
+                // this stage is not started: release its pipe ends as the
+                // parent does for a started stage, otherwise its neighbours
+                // never see EOF and the shell waits for them forever.
+                if idx_cmd < pipes_count {
+                    libs::close(pipes[idx_cmd].1);
+                }
+                if idx_cmd > 0 {
+                    libs::close(pipes[idx_cmd - 1].0);
+                }
+                *cmd_result = CommandResult::error();
+                return 0;
             }
         }
     }
